@@ -5,7 +5,7 @@ import fbcheck, drift
 from ai_edge_quantizer import quantizer
 from ai_edge_quantizer.utils import tfl_interpreter_utils as iu
 drift.install()
-R = '/repo/ai_edge_quantizer/recipes/'
+import os; R = os.environ.get('AEQ_REPO', '/repo') + '/ai_edge_quantizer/recipes/'
 recs = ['default_a8w8_recipe.json']
 lo, hi = int(sys.argv[1]), int(sys.argv[2])
 stats = collections.Counter(); ex = {}
